@@ -262,3 +262,32 @@ Proof.
 Qed.
 
 End NameProofs.
+
+(* ---- pagination ---------------------------------------------------------------------------- *)
+Lemma skipn_add {A} (a b : nat) (l : list A) : skipn b (skipn a l) = skipn (a + b) l.
+Proof.
+  revert l; induction a as [|a IH]; intro l; [reflexivity|].
+  destruct l as [|x l]; [now destruct b | exact (IH l)].
+Qed.
+
+(* consecutive pages tile the listing: nothing is skipped, nothing shown twice *)
+Theorem page_tiles {A} (off lim : nat) (l : list A) :
+  skipn off l = page off lim l ++ skipn (off + lim) l.
+Proof. unfold page. now rewrite <- skipn_add, firstn_skipn. Qed.
+
+Theorem pages_tile {A} (n off lim : nat) (l : list A) :
+  skipn off l = pages n off lim l ++ skipn (off + n * lim) l.
+Proof.
+  revert off; induction n as [|n IH]; intro off; cbn [pages].
+  - cbn. now rewrite Nat.add_0_r.
+  - rewrite (page_tiles off lim l) at 1. rewrite (IH (off + lim)%nat).
+    rewrite app_assoc. f_equal. f_equal. cbn. lia.
+Qed.
+
+(* with a positive page size, enough pages from offset 0 give back the whole listing *)
+Corollary pages_cover {A} (n lim : nat) (l : list A) :
+  (length l <= n * lim)%nat -> pages n 0 lim l = l.
+Proof.
+  intro H. pose proof (pages_tile n 0 lim l) as T. cbn [skipn plus] in T.
+  rewrite (skipn_all2 l) in T by exact H. now rewrite app_nil_r in T.
+Qed.
